@@ -95,3 +95,12 @@ func (v *VerifSender) Snapshot() VerifSenderSnapshot {
 	sort.Strings(out.SigChan)
 	return out
 }
+
+// HoldProgress takes the sender's progress mutex, which runTransfer's failure
+// path acquires (setSenderStage) between its two critical sections on the
+// admission state; while it is held a failing transfer's bookkeeping is parked
+// exactly in that window. The returned function releases it.
+func (v *VerifSender) HoldProgress() (release func()) {
+	v.s.progressMu.Lock()
+	return v.s.progressMu.Unlock
+}
